@@ -2,16 +2,26 @@
 
 // replay_test.go: every transition TLC printed for specs/cstore/MC_CStateStore is replayed into the real
 // code from a fresh database: real LoadStateFromDBOrGenesisDoc, real updateState for every block, real
-// Save / PruneState, then a NEW store object and real Load, loadStateAtHeight, LoadValidators,
-// LoadConsensusParams at every height.  The specification is the oracle:
+// Save / PruneState, restarts at random, then a NEW store object and real Load() at the head, Load() after
+// the head pointer has been rewound to every lower height, LoadValidators and LoadConsensusParams at every
+// height.  The specification is the oracle:
 //
 //	s  the chain state updateState must have produced           (sigs cstore:updatestate:...)
-//	o  what every read call returns AS SPECIFIED                 (sigs cstore:load:..., cstore:prune:...,
-//	                                                              cstore:loadvalidators:..., cstore:loadparams:...)
-//	x  what the AS-IMPLEMENTED instance of the specification predicts where that differs from o: a deviation
-//	   of the real code from o that x predicts exactly gets the suffix of its cause (":key-collision",
-//	   ":genesis-join", ":pruned-record", ":no-state-record"); one that x does not predict gets ":unexplained",
-//	   so that a recorded finding can never mask a new defect in the same field.
+//	o  what every read call returns AS SPECIFIED                 (sigs cstore:load:..., cstore:rewind:load:...,
+//	                                                              cstore:prune:..., cstore:loadvalidators:...,
+//	                                                              cstore:loadparams:...)
+//	x  what the AS-IMPLEMENTED instance of the specification (the model of the code as it is in the tree)
+//	   predicts where that differs from o: a deviation of the real code from o that x predicts exactly gets the
+//	   suffix of its cause (":key-collision", ":genesis-join", ":pruned-record", ":no-state-record",
+//	   ":as-implemented"); one that x does not predict gets ":unexplained", so that a recorded finding can never
+//	   mask a new defect in the same field.  Every deviation from o is reported, whatever x says.
+//
+// Compared merely to keep specification and code in lock-step (counted in the evidence, never reported):
+// LastHeightValidatorsChanged / LastHeightConsensusParamsChanged of loaded states, what PruneState reports,
+// answers for pruned heights, the priorities of the sets LoadValidators returns.
+//
+// Extra on every 4th history: the same history with voting powers * (2^40 + 12345) — whatever a read returns must
+// be a set that was saved (codec losses).  CSTORE_OLD_BELOW=k: old-database run, see replayer.report.
 package cstore
 
 import (
@@ -437,8 +447,32 @@ func scriptClasses(initP []int64, steps []step) map[string]bool {
 type replayer struct {
 	res       *mbt.Result
 	initP     []int64
-	storeless bool // TestUpdateState: only the chain of states is built and compared
-	viaExec   bool // TestApplyBlock: blocks go through the real BlockExecutor.ApplyBlock
+	storeless bool // TestOldDatabase = TestReplay with CSTORE_OLD_BELOW=k (set by checks/C14.py) against a dump whose as-implemented
+	// instance has UpgradeAt = k.
+
+	// TestUpdateState: only the chain of states is built and compared
+	viaExec  bool // TestApplyBlock: blocks go through the real BlockExecutor.ApplyBlock
+	oldBelow int  // TestOldDatabase: heights below this one are stored as the code before 83d442d stored them
+}
+
+// report: a deviation of the real code from the specification.  In an old-database run the as-implemented instance
+// of the specification describes what the repaired code does with records it did not write itself ("as before":
+// the hash-addressed records, with the priorities and the prune rule they always had); a deviation it predicts is
+// the accepted state of such a database and only counted, one it does not predict is reported.
+func (rp *replayer) report(sig, text string, detail interface{}) {
+	if rp.oldBelow > 0 && !strings.HasSuffix(sig, ":unexplained") {
+		for _, why := range []string{":key-collision", ":pruned-record", ":as-implemented", ":genesis-join", ":no-state-record"} {
+			if strings.HasSuffix(sig, why) {
+				rp.res.Add("olddb_as_before"+why, 1)
+				return
+			}
+		}
+	}
+	if rp.oldBelow > 0 {
+		sig = strings.Replace(sig, "cstore:", "cstore:olddb:", 1)
+		text = fmt.Sprintf("[database written by the code before the per-height records up to height %d] %s", rp.oldBelow-1, text)
+	}
+	rp.res.Mismatch(sig, text, detail)
 }
 
 // expressible: can the history be produced through ApplyBlock (no rejected change set, no change that leaves
@@ -495,7 +529,7 @@ func (rp *replayer) one(n int, raw []byte) {
 		res.Add("skipped_not_expressible_through_ApplyBlock", 1)
 		return
 	}
-	w, err := newWorld(rp.initP, 1)
+	w, err := newWorldU(rp.initP, 1, 1, rp.oldBelow)
 	if err != nil {
 		res.Mismatch("infra:genesis", err.Error(), detail)
 		return
@@ -600,7 +634,7 @@ func (rp *replayer) one(n int, raw []byte) {
 	// specification's 32-bit integers cannot follow): no expected values, but whatever a read returns must be a
 	// validator set that WAS saved — a codec that loses or alters a priority, a power or the proposer yields a value
 	// that never was.
-	if n%shadowStride == 0 && !rp.viaExec {
+	if n%shadowStride == 0 && !rp.viaExec && rp.oldBelow == 0 {
 		rp.shadow(steps, l.H, detail)
 	}
 }
@@ -609,7 +643,7 @@ const shadowStride = 4
 const shadowUnit = int64(1)<<40 + 12345
 
 func (rp *replayer) shadow(steps []step, hist []json.RawMessage, detail interface{}) {
-	w, err := newWorldU(rp.initP, 1, shadowUnit)
+	w, err := newWorldU(rp.initP, 1, shadowUnit, 0)
 	if err != nil {
 		rp.res.Mismatch("infra:genesis-scaled", err.Error(), detail)
 		return
@@ -727,7 +761,7 @@ func (rp *replayer) checkLoad(w *world, l *line, steps []step, cur absState, det
 	wantC, wantS, err := parseLd(l.O.Ld, cur)
 	implC, implS, err2 := parseLd(pick(l.O.Ld, l.X.Ld), cur)
 	if err != nil || err2 != nil {
-		res.Mismatch("infra:parse-ld", fmt.Sprint(err, err2), detail)
+		rp.report("infra:parse-ld", fmt.Sprint(err, err2), detail)
 		return
 	}
 	got := w.loadHead()
@@ -737,7 +771,7 @@ func (rp *replayer) checkLoad(w *world, l *line, steps []step, cur absState, det
 		if got.class == implC {
 			why = "pruned-record"
 		}
-		res.Mismatch("cstore:load:"+got.class+":"+rangeClass(steps, head)+":"+why,
+		rp.report("cstore:load:"+got.class+":"+rangeClass(steps, head)+":"+why,
 			fmt.Sprintf("after %s and a restart, Load() at head %d: real %s (%s), specified %s", histText(l.H), head, got.class, got.msg, wantC), detail)
 		return
 	}
@@ -767,7 +801,7 @@ func (rp *replayer) checkLoad(w *world, l *line, steps []step, cur absState, det
 				}
 			}
 		}
-		res.Mismatch("cstore:load:"+d.field+":"+d.aspect+":"+why,
+		rp.report("cstore:load:"+d.field+":"+d.aspect+":"+why,
 			fmt.Sprintf("after %s and a restart, Load() at head %d returns %s = %s, saved was %s", histText(l.H), head, d.field, d.got, d.want), detail)
 	}
 	for _, d := range ld {
@@ -813,10 +847,10 @@ func (rp *replayer) checkLoadAt(w *world, l *line, steps []step, head int, detai
 			if impl[h] == 2 {
 				why = "pruned-record"
 			}
-			res.Mismatch("cstore:prune:kept-state-unloadable:"+rangeClass(steps, h)+":"+why,
+			rp.report("cstore:prune:kept-state-unloadable:"+rangeClass(steps, h)+":"+why,
 				fmt.Sprintf("after %s the per-height record of height %d is kept but loading it panics (%s): a record it refers to is gone", histText(l.H), h, got.msg), detail)
 		case want[h] >= 10 && got.class == "none":
-			res.Mismatch("cstore:prune:kept-state-removed:"+rangeClass(steps, h),
+			rp.report("cstore:prune:kept-state-removed:"+rangeClass(steps, h),
 				fmt.Sprintf("after %s the per-height record of height %d is gone although no prune range covers it", histText(l.H), h), detail)
 		case want[h] >= 10 && h < head:
 			// (the head itself is compared value by value in checkLoad)
@@ -837,7 +871,7 @@ func (rp *replayer) checkLoadAt(w *world, l *line, steps []step, head int, detai
 						why = "as-implemented"
 					}
 				}
-				res.Mismatch("cstore:rewind:load:"+d.field+":"+d.aspect+":"+why,
+				rp.report("cstore:rewind:load:"+d.field+":"+d.aspect+":"+why,
 					fmt.Sprintf("after %s, the head rewound to block %d and a restart, Load() returns %s = %s, saved for height %d was %s", histText(l.H), h, d.field, d.got, h, d.want), detail)
 			}
 			for _, d := range ld {
@@ -879,7 +913,7 @@ func (rp *replayer) checkLoadValidators(w *world, l *line, steps []step, head in
 		class, full, msg := w.loadValidators(h)
 		rc := rangeClass(steps, h)
 		if class == "panic" {
-			res.Mismatch("cstore:loadvalidators:panic:"+rc, fmt.Sprintf("after %s LoadValidators(%d) panics: %s", histText(l.H), h, msg), detail)
+			rp.report("cstore:loadvalidators:panic:"+rc, fmt.Sprintf("after %s LoadValidators(%d) panics: %s", histText(l.H), h, msg), detail)
 			continue
 		}
 		switch {
@@ -888,7 +922,7 @@ func (rp *replayer) checkLoadValidators(w *world, l *line, steps []step, head in
 			if !impl[h].ok {
 				why = "pruned-record"
 			}
-			res.Mismatch("cstore:loadvalidators:missing:"+rc+":"+why,
+			rp.report("cstore:loadvalidators:missing:"+rc+":"+why,
 				fmt.Sprintf("after %s the state of height %d is kept but LoadValidators(%d) fails (%s); entitled to sign it: %s", histText(l.H), h, h, msg, want[h].mem), detail)
 		case want[h].ok && class == "ok":
 			mem, _, _ := splitRepr(full)
@@ -897,7 +931,7 @@ func (rp *replayer) checkLoadValidators(w *world, l *line, steps []step, head in
 				if impl[h].ok && impl[h].mem == mem {
 					why = "as-implemented"
 				}
-				res.Mismatch("cstore:loadvalidators:members:"+why,
+				rp.report("cstore:loadvalidators:members:"+why,
 					fmt.Sprintf("after %s LoadValidators(%d) returns %s, entitled to sign height %d: %s", histText(l.H), h, mem, h, want[h].mem), detail)
 			} else if full != setRepr(w.chain[h].LastValidators) {
 				// right members and powers, other priorities/proposer than the set saved for that height: the statement
@@ -928,15 +962,15 @@ func (rp *replayer) checkLoadParams(w *world, l *line, steps []step, head int, d
 			if why != "unexplained" {
 				why = "no-state-record"
 			}
-			res.Mismatch("cstore:loadparams:panic:"+why,
+			rp.report("cstore:loadparams:panic:"+why,
 				fmt.Sprintf("after %s LoadConsensusParams(%d) for a height without a stored state panics (%s) instead of returning an error", histText(l.H), h, msg), detail)
 		case got == -1:
-			res.Mismatch("cstore:loadparams:panic:kept-height:"+why, fmt.Sprintf("after %s LoadConsensusParams(%d) panics: %s", histText(l.H), h, msg), detail)
+			rp.report("cstore:loadparams:panic:kept-height:"+why, fmt.Sprintf("after %s LoadConsensusParams(%d) panics: %s", histText(l.H), h, msg), detail)
 		case want[h] > 0 && got == 0:
-			res.Mismatch("cstore:loadparams:missing:"+rangeClass(steps, h)+":"+why,
+			rp.report("cstore:loadparams:missing:"+rangeClass(steps, h)+":"+why,
 				fmt.Sprintf("after %s LoadConsensusParams(%d) fails (%s), saved for that height: params #%d", histText(l.H), h, msg, want[h]), detail)
 		case want[h] > 0:
-			res.Mismatch("cstore:loadparams:value:"+why,
+			rp.report("cstore:loadparams:value:"+why,
 				fmt.Sprintf("after %s LoadConsensusParams(%d) returns params #%d, saved for that height: #%d", histText(l.H), h, got, want[h]), detail)
 		default:
 			res.Add("lockstep_loadparams_answers_unknown_height", 1)
@@ -947,7 +981,7 @@ func (rp *replayer) checkLoadParams(w *world, l *line, steps []step, head int, d
 func runReplay(t *testing.T, storeless bool) {
 	res := mbt.NewResult()
 	defer res.Write()
-	rp := &replayer{res: res, initP: parseInit(), storeless: storeless}
+	rp := &replayer{res: res, initP: parseInit(), storeless: storeless, oldBelow: mbt.EnvInt("CSTORE_OLD_BELOW", 0)}
 	if len(rp.initP) == 0 {
 		res.Mismatch("infra:env", "CSTORE_INIT not set", nil)
 		return
@@ -967,13 +1001,9 @@ func runReplay(t *testing.T, storeless bool) {
 // env: CSTORE_DUMP (TLC output), CSTORE_INIT (genesis powers "1,1,1"), optional CSTORE_STRIDE / CSTORE_LIMIT.
 func TestReplay(t *testing.T) { runReplay(t, false) }
 
+// TestOldDatabase = TestReplay with CSTORE_OLD_BELOW=k (set by checks/C14.py) against a dump whose as-implemented
+// instance has UpgradeAt = k.
+
 // TestUpdateState: only the chain of states (real updateState against Increment(Update(NextValidators)) of
 // ValidatorSet.tla); same env.  For checks/C12.py.
 func TestUpdateState(t *testing.T) { runReplay(t, true) }
-
-func min(a, b int) int {
-	if a < b {
-		return a
-	}
-	return b
-}
